@@ -126,7 +126,7 @@ func (c17) Generate(env *kernel.Env, r *kernel.Rand, index int) any {
 	for i := 0; i < na; i++ {
 		pi := r.Intn(len(p.Pkgs))
 		a := fileArg{Pkg: pi, File: r.Intn(len(p.Pkgs[pi].Files))}
-		a.Spelling = kernel.Pick(r, []string{"abs", "abs", "rel", "dotrel", "updown"})
+		a.Spelling = kernel.Pick(r, []string{"abs", "abs", "rel", "dotrel", "updown", "absupdown", "absdot", "absdslash"})
 		p.Args = append(p.Args, a)
 	}
 	if r.Chance(1, 5) && len(p.Args) > 1 {
@@ -258,6 +258,18 @@ func (c17) Execute(env *kernel.Env, raw json.RawMessage, ch *kernel.Choices) *ke
 					spelled = rel
 				}
 			}
+		}
+		// absolute but not canonical spellings: still the same existing file
+		sep := string(filepath.Separator)
+		switch a.Spelling {
+		case "absupdown":
+			if d := filepath.Dir(abs); d != sep && filepath.Dir(d) != sep {
+				spelled = d + sep + ".." + sep + filepath.Base(d) + sep + filepath.Base(abs)
+			}
+		case "absdot":
+			spelled = filepath.Dir(abs) + sep + "." + sep + filepath.Base(abs)
+		case "absdslash":
+			spelled = filepath.Dir(abs) + sep + sep + filepath.Base(abs)
 		}
 		absFiles = append(absFiles, abs)
 		args = append(args, spelled)
